@@ -1,7 +1,7 @@
 package main
 
 func init() {
-	register("C17", Rule{Name: "E5", Run: runE5})
+	register("C17", Rule{Name: "E5", Run: runE5}, Rule{Name: "E15.copy0", Run: runZeroLenCopy})
 	register("C01", Rule{Name: "E4.P1", Run: runP1}, Rule{Name: "E4.P2P3", Run: runP2P3}, Rule{Name: "E4.P2prod", Run: runP2Producers}, Rule{Name: "E4.P4", Run: runP4}, Rule{Name: "E4.P5", Run: runP5}, Rule{Name: "E1.pairing", Run: runKindPairing}, Rule{Name: "E14.termination", Run: runTermination})
 	register("C03", Rule{Name: "E2", Run: runE2}, Rule{Name: "E2.cmp", Run: runE2Comparators}, Rule{Name: "E2.nondet", Run: runNondetSources}, Rule{Name: "E3.state", Run: runGlobalState}, Rule{Name: "E3", Run: runE3},
 		Rule{Name: "E2.cmp-subject", Run: runCmpSubject}, Rule{Name: "E2.poskeys", Run: runPosKeys})
@@ -16,7 +16,7 @@ func init() {
 }
 
 func init() {
-	register("C06", Rule{Name: "C06.limit", Run: runC06Limit}, Rule{Name: "C06.placeholders", Run: runC06Placeholders}, Rule{Name: "C06.plaintext", Run: runC06PlainText})
+	register("C06", Rule{Name: "C06.limit", Run: runC06Limit}, Rule{Name: "C06.placeholders", Run: runC06Placeholders}, Rule{Name: "C06.plaintext", Run: runC06PlainText}, Rule{Name: "C06.generator", Run: runC06Generator})
 }
 
 func init() {
@@ -28,7 +28,7 @@ func init() {
 }
 
 func init() {
-	register("C02", Rule{Name: "E6", Run: runE6})
+	register("C02", Rule{Name: "E6", Run: runE6}, Rule{Name: "E6.trim", Run: runByteTrim})
 }
 
 func init() {
@@ -57,7 +57,7 @@ func init() {
 
 func init() {
 	register("C09", Rule{Name: "E1.rows", Run: runRows("C09")}, Rule{Name: "E9.ctx", Run: runC09Ctx}, Rule{Name: "E3.alias", Run: runAppendAlias},
-		Rule{Name: "E5", Run: runE5}, Rule{Name: "E2", Run: runE2})
+		Rule{Name: "E5.module", Run: runE5Module}, Rule{Name: "E2", Run: runE2})
 }
 
 func init() {
@@ -85,7 +85,14 @@ func init() {
 	for _, pid := range []string{"C07", "C08", "C09", "C10", "C11", "C12", "C13", "C14", "C15", "C16", "C19", "C20"} {
 		propRules[pid] = append(propRules[pid],
 			Rule{Name: "E15.self", Run: runSelfCompare}, Rule{Name: "E15.collect", Run: runCollectAll}, Rule{Name: "E15.parallel", Run: runParallelIndex},
-			Rule{Name: "E15.stale", Run: runStaleElementState}, Rule{Name: "E15.siblings", Run: runSiblingChildCons})
+			Rule{Name: "E15.stale", Run: runStaleElementState}, Rule{Name: "E15.siblings", Run: runSiblingChildCons}, Rule{Name: "E15.copy0", Run: runZeroLenCopy},
+			Rule{Name: "E15.case", Run: runAsymmetricNormalisation}, Rule{Name: "E14.params", Run: runParamPermutation}, Rule{Name: "E16.lost", Run: runLostUpdate})
+	}
+	propRules["C18"] = append(propRules["C18"], Rule{Name: "E2.poskeys", Run: runPosKeys}, Rule{Name: "E15.collect", Run: runCollectAll}, Rule{Name: "E6.trim", Run: runByteTrim})
+	propRules["C19"] = append(propRules["C19"], Rule{Name: "E11.consumers", Run: runLookupConsumers})
+	propRules["C14"] = append(propRules["C14"], Rule{Name: "E11.consumers", Run: runLookupConsumers})
+	for _, pid := range []string{"C10", "C11"} {
+		propRules[pid] = append(propRules[pid], Rule{Name: "E5.module", Run: runE5Module})
 	}
 	for _, pid := range []string{"C07", "C08", "C10", "C11", "C12", "C14", "C15"} {
 		propRules[pid] = append(propRules[pid], Rule{Name: "E3.shared", Run: runAppendAlias})
